@@ -118,6 +118,12 @@ func wodCheck(e *Context, addLine IntType, pool IntType, points IntType, thresho
 
 // RollWoD 返回: 成功数，总骰数，轮数，细节
 func RollWoD(src *rand.PCGSource, addLine IntType, pool IntType, points IntType, threshold IntType, isGE bool, mode int) (IntType, IntType, IntType, string) {
+	a, b, c, d, _ := rollWoD(src, addLine, pool, points, threshold, isGE, mode, nil)
+	return a, b, c, d
+}
+
+// rollWoD 同 RollWoD。charge 不为 nil 时，每一轮开始前以本轮骰数调用它(计入算力)，它返回 true 表示算力耗尽，此时立即中止并返回 aborted=true
+func rollWoD(src *rand.PCGSource, addLine IntType, pool IntType, points IntType, threshold IntType, isGE bool, mode int, charge func(IntType) bool) (IntType, IntType, IntType, string, bool) {
 	var details []string
 	addTimes := 1
 
@@ -126,6 +132,9 @@ func RollWoD(src *rand.PCGSource, addLine IntType, pool IntType, points IntType,
 	successCount := IntType(0)
 
 	for times := 0; times < addTimes; times++ {
+		if charge != nil && charge(pool) {
+			return 0, 0, 0, "", true
+		}
 		addCount := IntType(0)
 		var detailsOne []string
 
@@ -194,7 +203,7 @@ func RollWoD(src *rand.PCGSource, addLine IntType, pool IntType, points IntType,
 	detailText = fmt.Sprintf("成功%d/%d%s%s", successCount, allRollCount, roundsText, detailText)
 
 	// 成功数，总骰数，轮数，细节
-	return successCount, allRollCount, IntType(addTimes), detailText
+	return successCount, allRollCount, IntType(addTimes), detailText, false
 }
 
 func doubleCrossCheck(ctx *Context, addLine, pool, points IntType) bool {
@@ -217,6 +226,12 @@ func doubleCrossCheck(ctx *Context, addLine, pool, points IntType) bool {
 }
 
 func RollDoubleCross(src *rand.PCGSource, addLine IntType, pool IntType, points IntType, mode int) (IntType, IntType, IntType, string) {
+	a, b, c, d, _ := rollDoubleCross(src, addLine, pool, points, mode, nil)
+	return a, b, c, d
+}
+
+// rollDoubleCross 同 RollDoubleCross，charge 的含义见 rollWoD
+func rollDoubleCross(src *rand.PCGSource, addLine IntType, pool IntType, points IntType, mode int, charge func(IntType) bool) (IntType, IntType, IntType, string, bool) {
 	var details []string
 	addTimes := 1
 
@@ -225,6 +240,9 @@ func RollDoubleCross(src *rand.PCGSource, addLine IntType, pool IntType, points 
 	resultDice := IntType(0)
 
 	for times := 0; times < addTimes; times++ {
+		if charge != nil && charge(pool) {
+			return 0, 0, 0, "", true
+		}
 		addCount := IntType(0)
 		detailsOne := []string{}
 		maxDice := IntType(0)
@@ -292,7 +310,7 @@ func RollDoubleCross(src *rand.PCGSource, addLine IntType, pool IntType, points 
 	}
 
 	// 成功数，总骰数，轮数，细节
-	return resultDice, allRollCount, IntType(addTimes), lastDetail
+	return resultDice, allRollCount, IntType(addTimes), lastDetail, false
 }
 
 // RollCommon (times)d(dicePoints)kl(lowNum) 或 (times)d(dicePoints)kh(highNum)
